@@ -23,6 +23,21 @@ def sym(fn, op, depth=0):
     if 1 <= l <= fn.arg_count and not defs:
         return ("arg", l, tuple(proj))
     if len(defs) != 1:
+        # `(x as Some).0` where x is built as Some(v) on one path and as None on the others: only the Some definition can be
+        # the one that is read through the downcast
+        if len(proj) >= 2 and proj[0].startswith("d:") and proj[1].startswith("f:") and len(proj[0].split(":")) > 2 and defs and all(
+                d[1] == "assign" and d[2]["rv"]["k"] == "agg" and d[2]["rv"].get("kind") == "adt" and d[2]["rv"].get("variant") is not None for d in defs):
+            vname = proj[0].split(":")[2]
+            cands = [d for d in defs if d[2]["rv"].get("variant") == vname]
+            if len(cands) == 1:
+                idx = int(proj[1].split(":")[1])
+                ops = cands[0][2]["rv"].get("ops", [])
+                if idx < len(ops):
+                    inner = ops[idx]
+                    ip = op_place(inner)
+                    if ip is not None and len(proj) > 2:
+                        inner = {"k": inner["k"], "p": [ip[0], list(ip[1]) + list(proj[2:])]}
+                    return sym(fn, inner, depth + 1)
         return ("v", l, tuple(proj))
     site, kind, s = defs[0]
     if kind == "call":
